@@ -442,6 +442,7 @@ decided by exhaustive evaluation of the guard over environment x {no, some tagge
     nested_choice_override(m, ctx);
     coverage(m, ctx, apply_fn, &pass_fns, &sites);
     auto_tags(m, ctx, &ev);
+    crate::rules::c05::member_annotations(m, ctx, "C03.member", "tag");
     header_flow(m, ctx, "C03.header");
     reset_rule(m, ctx, "C03.env", "tagging_environment");
     // tags survive the rebuild of a type that mentions a class field (shared with C02.rebuild)
@@ -831,11 +832,13 @@ fn auto_tags(m: &Model, ctx: &mut Ctx, ev0: &Evaluator) {
                 &format!("{}: the automatic_tags guard `{}` does not inspect the tags of the type's own {} (X.680 §25.3/§29.2)", fname, cond, list_field));
             continue;
         };
-        let mk_elem = |tagged: bool| {
+        let mk_elem_of = |class: Option<&str>| {
             let mut n = BTreeMap::new();
-            n.insert("tag".to_string(), if tagged { Val::some(mk_tag("Automatic", "ContextSpecific", 1)) } else { Val::none() });
+            n.insert("tag".to_string(), match class { Some(c) => Val::some(mk_tag("Automatic", c, 1)), None => Val::none() });
             Val::Ctor(elem.to_string(), vec![], n)
         };
+        let mk_elem = |tagged: bool| mk_elem_of(if tagged { Some("ContextSpecific") } else { None });
+        // "carries a tag" is any tag: `[APPLICATION 1]`, `[PRIVATE 2]`, `[UNIVERSAL 3]` as much as `[1]`
         let lists: Vec<(&str, Vec<Val>, bool)> = vec![
             ("no components", vec![], false),
             ("one untagged", vec![mk_elem(false)], false),
@@ -843,6 +846,9 @@ fn auto_tags(m: &Model, ctx: &mut Ctx, ev0: &Evaluator) {
             ("untagged then tagged", vec![mk_elem(false), mk_elem(true)], true),
             ("tagged then untagged", vec![mk_elem(true), mk_elem(false)], true),
             ("three untagged", vec![mk_elem(false), mk_elem(false), mk_elem(false)], false),
+            ("one APPLICATION-tagged", vec![mk_elem_of(Some("Application")), mk_elem(false)], true),
+            ("one PRIVATE-tagged", vec![mk_elem(false), mk_elem_of(Some("Private"))], true),
+            ("one UNIVERSAL-tagged", vec![mk_elem_of(Some("Universal"))], true),
         ];
         for env_name in ["Automatic", "Implicit", "Explicit"] {
             for (lname, list, any_tagged) in &lists {
